@@ -65,7 +65,8 @@ pub fn run(stim: &Value, rec: &Rec) {
         log2.ev(json!({"e":"icpt","applied":applied,"saw_ext_a": saw_ext_a}));
         match verdict { Some(s) => Err(s), None => Ok(r) }
     };
-    let mut svc = InterceptedService::new(inner, icpt);
+    // stim.via_layer: the same interceptor installed through InterceptorLayer (what Server::layer / ServiceBuilder users write)
+    let mut svc = if stim["via_layer"].as_bool().unwrap_or(false) { tower::Layer::layer(&tonic::service::InterceptorLayer::new(icpt), inner) } else { InterceptedService::new(inner, icpt) };
     let rq = &stim["req"];
     let mut b = http::Request::builder().method(rq["method"].as_str().unwrap_or("POST")).uri(rq["uri"].as_str().unwrap_or("/a.S/M"))
         .version(match rq["version"].as_str().unwrap_or("HTTP/2.0") { "HTTP/1.1" => http::Version::HTTP_11, _ => http::Version::HTTP_2 });
@@ -94,6 +95,7 @@ pub fn gen(seed: u64, tier: &str) -> Vec<Value> {
     let names = ["x", "x-bin", "y", "te", "content-type", "user-agent", "grpc-status", "grpc-timeout", "grpc-encoding", "authorization", "k-bin"];
     let uris = ["/a.S/M", "/a.S/M?q=1", "http://h.test/a.S/M", "/", "*"];
     (0..n).map(|_| {
+        let via_layer = rng.gen_bool(0.3);
         let nh = rng.gen_range(0..6);
         let headers: Vec<Value> = (0..nh).map(|_| {
             let name = names[rng.gen_range(0..names.len())];
@@ -119,7 +121,7 @@ pub fn gen(seed: u64, tier: &str) -> Vec<Value> {
         let bl = rng.gen_range(0..20);
         let (m, ver, uri) = (["POST","GET","OPTIONS","PUT"][rng.gen_range(0..4)], ["HTTP/2.0","HTTP/1.1"][rng.gen_range(0..2)], uris[rng.gen_range(0..uris.len())]);
         json!({"class":"intercept","req":{"method":m,"version":ver,
-            "uri":uri,"headers":headers,"ext_a":rng.gen_bool(0.5),"body":bytes_json(&(0..bl).map(|_| rng.gen()).collect::<Vec<u8>>())},"actions":actions})
+            "uri":uri,"headers":headers,"ext_a":rng.gen_bool(0.5),"body":bytes_json(&(0..bl).map(|_| rng.gen()).collect::<Vec<u8>>())},"actions":actions,"via_layer":via_layer})
     }).collect()
 }
 
